@@ -61,7 +61,7 @@ def strings_for(T, tier):
                 for v in (b - 1, b, b + 1):
                     extra += [str(v), '+' + str(v) if v >= 0 else str(v), ('-00' + str(-v)) if v < 0 else ('00' + str(v)), ' %d ' % v, '%d.0' % v]
         extra += ['1' + '0' * 30, '-' + '9' * 40, '0.' + '0' * 30 + '1', '1e400', '-1e400', '1e-400', '4.9e-324', '1.7976931348623157e308', '1.7976931348623159e308',
-                  '3.4028235e38', '3.4028236e38', '16777217', '0.1', '+INF', '-INF', ' INF ', 'Infinity', 'nan', 'NAN', '1e+5', '1E-5', '1e5.0', '١٢', '1\xa00', '0x10', '1,5', '1 5']
+                  '3.4028235e38', '3.4028236e38', '16777217', '0.1', '1.5e20', '1.5e-10', '2.5E30', '1.25e100', '1.5e300', '2.50e-300', '1.0e10', '12e5', '+INF', '-INF', ' INF ', 'Infinity', 'nan', 'NAN', '1e+5', '1E-5', '1e5.0', '١٢', '1\xa00', '0x10', '1,5', '1 5']
         return base + extra
     if T == 'boolean':
         return seqs(BOOL_TOK, 4 if deep else 3) + ['True', 'yes', '\ttrue\n', 'tr ue']
@@ -222,6 +222,11 @@ def run_lexical(unit, tier, acc):
         paths['castable'] = r[1] if r[0] == 'val' else r
         r_cast = ev(S, '$s cast as xs:%s' % T, s=s)
         paths['cast'] = r_cast[0] == 'val'
+        if T not in ('QName', 'string', 'normalizedString', 'untypedAtomic'):
+            r_u = ev(S, 'xs:untypedAtomic($s) cast as xs:%s' % T, s=s)
+            paths['cast-from-untyped'] = r_u[0] == 'val' if r_u[0] != 'escape' else r_u
+            r_u2 = ev(S, 'xs:%s(xs:untypedAtomic($s))' % T, s=s)
+            paths['constructor-from-untyped'] = r_u2[0] == 'val' if r_u2[0] != 'escape' else r_u2
         try:
             paths['is_valid'] = bool(cls.is_valid(s))
         except Exception as e:  # noqa
